@@ -61,7 +61,7 @@ def const_view(t):
     mk = {"reshape": lambda a, c: mg.reshape(a, (3, 2) if a.shape == (2, 3) else (2, 3), constant=c), "transpose": lambda a, c: mg.transpose(a, constant=c),
           "swapaxes": lambda a, c: mg.swapaxes(a, 0, 1, constant=c), "expand_dims": lambda a, c: mg.expand_dims(a, 0, constant=c), "ravel": lambda a, c: mg.ravel(a, constant=c)}
     c = mk[t["fn"]](x, True)
-    v = mk[t["fn2"]](c, False) if c.ndim == 2 or t["fn2"] in ("expand_dims", "ravel") else c[...]
+    v = mk[t["fn2"]](c, False) if c.ndim == 2 or t["fn2"] in ("expand_dims", "ravel") else mg.ravel(c, constant=False)
     L = (x * x).sum()
     if t["c_in_graph"]:
         L = L + (c * 2.0).sum()
